@@ -70,7 +70,7 @@ const (
 	EMimetype = nEntries + 1 // m.MinifyMimetype with a mimetype byte slice that the callers share
 )
 
-var c13Entries = []int{EPlain, EBytes, EString, EReader, EWriter, EMatch, ERespWriter, EDirect, EMimetype}
+var c13Entries = []int{EPlain, EBytes, EString, EReader, EWriter, EMatch, ERespWriter, EDirect, EMimetype, EMiddleErr}
 
 // mimetype slices shared by all tasks of a run, as a program that keeps them in package
 // level variables does; the mixed-case ones are not registered (the call must fail with the
@@ -349,6 +349,7 @@ func c13Case(env *Env, tape *sim.Tape) *CaseOut {
 	maxDoc := 8 << 10
 	var tasks [][]*Op
 	var all []*c13Op
+	var middleOps []*Op
 	hosts := hostDocs(env)
 	for ti := 0; ti < ntasks; ti++ {
 		nops := 1 + tape.Draw(3)
@@ -387,6 +388,10 @@ func c13Case(env *Env, tape *sim.Tape) *CaseOut {
 			op.WriteChunks = drawChunks(tape, len(doc.Data), 6)
 			op.ContentType = doc.MT
 			op.RequestURI = "/x" + mtExt[doc.MT]
+			if entry == EMiddleErr {
+				op.RequestURI = fmt.Sprintf("/t%d/o%d/x%s", ti, len(ops), mtExt[doc.MT])
+				middleOps = append(middleOps, op)
+			}
 			if entry == EReader {
 				op.ReadBufs = []int{1 + tape.Draw(64), 1 + tape.Draw(256)}
 			}
@@ -415,6 +420,17 @@ func c13Case(env *Env, tape *sim.Tape) *CaseOut {
 	budget := 256
 	for _, o := range all {
 		budget += 8 * (o.ref.W + len(o.R.Chunks) + len(o.WriteChunks) + len(o.In)/32 + len(o.ref.Out)/32 + 16)
+	}
+	if len(middleOps) > 0 && tape.Draw(4) != 0 {
+		// one handler value serves all these requests, as in a real server (a handler built per
+		// request cannot show state that the handler keeps between requests)
+		h := SharedMiddleware(m, middleOps)
+		for _, op := range middleOps {
+			op.SharedHandler = h
+		}
+		if len(middleOps) > 1 {
+			out.stat("probe_one_middleware_handler_serving_overlapping_requests", 1)
+		}
 	}
 	FlagLockWait = true
 	sv, st := RunTasks(env.T, tape, m, tasks, stick, budget, false)
@@ -466,10 +482,13 @@ func c13Case(env *Env, tape *sim.Tape) *CaseOut {
 		if o.Entry == EWriter || o.Entry == ERespWriter {
 			gotErr = o.CloseErr
 		}
+		if o.Entry == EMiddleErr {
+			gotErr = o.MidErr
+		}
 		if errText(gotErr) != errText(o.ref.Err) {
 			return fail("error-differs", site, fmt.Sprintf("concurrent call reported %q, sequential call %q [doc=%s]", errText(gotErr), errText(o.ref.Err), env.Corpus[o.di].Name))
 		}
-		if o.Entry == ERespWriter && len(o.In) == 0 {
+		if (o.Entry == ERespWriter || o.Entry == EMiddleErr) && len(o.In) == 0 {
 			// a response without a body never reaches a minifier (no Write call starts one):
 			// nothing to compare with the sequential plain call on an empty document
 			continue
